@@ -214,6 +214,16 @@ func main() {
 			lists = append(lists, []*sdf.Triangle3{a, b})
 		}
 	}
+	if c.Thorough() {
+		// all lists of length 3 over the menu, and every length 3..300 of the numbered family
+		for _, a := range menu {
+			for _, b := range menu {
+				for _, d := range menu {
+					lists = append(lists, []*sdf.Triangle3{a, b, d})
+				}
+			}
+		}
+	}
 	long := func(n int) []*sdf.Triangle3 {
 		o := make([]*sdf.Triangle3, n)
 		for i := range o {
@@ -224,6 +234,11 @@ func main() {
 	}
 	for _, n := range vlib.Pick(c, []int{81, 82, 255, 256, 257, 1000}, []int{81, 82, 83, 255, 256, 257, 511, 512, 513, 1000, 70000}) {
 		lists = append(lists, long(n))
+	}
+	if c.Thorough() {
+		for n := 3; n <= 300; n++ {
+			lists = append(lists, long(n))
+		}
 	}
 	states += c.ParFor(len(lists), func(i int) {
 		ts := lists[i]
@@ -278,7 +293,19 @@ func main() {
 
 	// (3) histories on one path: large then small (a writer must truncate)
 	hp := filepath.Join(work, "history.stl")
-	for _, seq := range [][]int{{300, 3, 0, 1}, {1, 300, 2}, {82, 81}} {
+	hseqs := [][]int{{300, 3, 0, 1}, {1, 300, 2}, {82, 81}}
+	if c.Thorough() {
+		sz := []int{0, 1, 2, 81, 82, 300}
+		for _, a := range sz {
+			for _, b := range sz {
+				hseqs = append(hseqs, []int{a, b})
+				for _, d := range sz {
+					hseqs = append(hseqs, []int{a, b, d})
+				}
+			}
+		}
+	}
+	for _, seq := range hseqs {
 		for _, writer := range []string{"SaveSTL", "ToSTL", "mixed"} {
 			os.Remove(hp)
 			for step, n := range seq {
